@@ -72,6 +72,12 @@ var props = []*propSpec{
 }
 
 func init() {
+	props = append(props, &propSpec{ID: "C06", Level: "exploration", Clauses: []string{"C06."},
+		Scens:  []scenSpec{{Name: "ac", Weight: 1}},
+		QuickS: 40, ThorS: 600, Rule: ruleCommon})
+	props = append(props, &propSpec{ID: "C11", Level: "exploration", Clauses: []string{"C11."},
+		Scens:  []scenSpec{{Name: "ac", Weight: 1}},
+		QuickS: 40, ThorS: 600, Rule: ruleCommon})
 	props = append(props, &propSpec{ID: "C12", Level: "fault_enumeration", Clauses: []string{"C12.", "C14.panic"},
 		Scens:  []scenSpec{{Name: "backend", Weight: 1}},
 		QuickS: 45, ThorS: 900, Rule: ruleCommon})
